@@ -29,15 +29,16 @@ type c19Name struct {
 	viaTCP  bool   // routed to the TCP upstream (transport errors are immediate there) instead of the UDP one
 	newTTL  uint32
 
-	primes   int32
-	fetches  atomic.Int32
-	gate     chan struct{}
-	gateOpen atomic.Bool
-	after    atomic.Bool     // the refresh phase is over: later fetches are ordinary misses
-	held     atomic.Int32    // refresh fetches that arrived while the gate was closed
-	heldBy   [3]atomic.Int32 // the same, per client group (attributed through the ECS option of the upstream query)
-	nonPrime [3]atomic.Int32 // every fetch after priming, per client group (held or not)
-	serials  sync.Map        // serial -> fetch index
+	primes    int32
+	fetches   atomic.Int32
+	gate      chan struct{}
+	gateOpen  atomic.Bool
+	after     atomic.Bool     // the refresh phase is over: later fetches are ordinary misses
+	held      atomic.Int32    // refresh fetches that arrived while the gate was closed
+	heldBy    [3]atomic.Int32 // the same, per client group (attributed through the ECS option of the upstream query)
+	nonPrime  [3]atomic.Int32 // every fetch after priming, per client group (held or not)
+	misrouted atomic.Value    // description of an upstream query for this name that arrived at the other upstream
+	serials   sync.Map        // serial -> fetch index
 }
 
 // c19GroupOf attributes an upstream query to a client group through its ECS option (ECS is enabled in this
@@ -79,6 +80,10 @@ func TestVfC19Prefetch(t *testing.T) {
 			return UpAction{}
 		}
 		n := v.(*c19Name)
+		if (q.Up.Tag == "uptcp") != n.viaTCP || q.Msg.Q[0].Type != 1 || q.Msg.Q[0].Class != 1 {
+			// fetches and refreshes of a name go to the upstream its rule selects, for the question that was asked
+			n.misrouted.CompareAndSwap(nil, fmt.Sprintf("upstream query #%d for %s arrived at upstream %q as type %d class %d (the rule for this name selects %q, the clients ask type 1 class 1)", n.fetches.Load()+1, n.label, q.Up.Tag, q.Msg.Q[0].Type, q.Msg.Q[0].Class, map[bool]string{true: "uptcp", false: "up"}[n.viaTCP]))
+		}
 		k := n.fetches.Add(1) - 1
 		n.serials.Store(uint32(q.Seq), int(k))
 		if k < n.primes {
@@ -476,6 +481,11 @@ func TestVfC19Prefetch(t *testing.T) {
 			}(n)
 		}
 		wg.Wait()
+		for _, n := range all {
+			if m := n.misrouted.Load(); m != nil {
+				fail("%s: %s", n.label, m)
+			}
+		}
 		if e := firstErr.Load(); e != nil {
 			lbl := strings.SplitN(e.(string), ":", 2)[0]
 			t.Fatalf("%v\nproxy log for %s:\n%s", e, lbl, p.LogLines(lbl, 40))
